@@ -112,4 +112,39 @@ PROPS = {
                 "the last element. Distinct = distinct program text.",
         "assumptions": COMMON_ASSUMPTIONS,
     },
+    "C04": {
+        "level": "exploration",
+        "technique": "property-based testing (rapid): generated relation pairs with arbitrary heading overlap/order/representation vs a nested-loop reference join and its documented projections; nest/unnest/rank vs set-comprehension definitions",
+        "level_text": "Generated-input search: two relations over {a,b,c,d,@,@item,@char,@value,@foo,@byte} with arbitrary heading overlap (each of left-only/common/"
+                      "right-only possibly empty), 0-4 rows over tiny domains so matches and non-matches are frequent, rendered as relation literals with permuted "
+                      "headings, sets of tuple literals, arrays/strings/dicts used as binary relations, unions, and results of earlier joins (non-identity column "
+                      "layouts); all eight join operators compared with the projection of a nested-loop natural join. nest (|attrs|n, ~|attrs|n, single attribute) "
+                      "compared with grouping by comprehension, rel.Unnest of the nest result with the operand, rank with the count of strictly smaller keys.",
+        "level_note": "Trusted: model.Join/Nest/Unnest (nested loops; unit-tested against the worked examples of docs/docs/lang/relops.md), rapid. unnest has no source syntax "
+                      "(the compiler panics 'unfinished'), so the exported rel.Unnest is applied to evaluated nest results.",
+        "tests": [{"name": "TestC04", "quick": 2500, "thorough": 25000}],
+        "rule": "join: non-trivial when some but not all row pairs match, or a heading partition is empty, or an operand has a sugar heading (@ plus @item/@char/@value/@byte/@foo); "
+                "nest: at least two groups with at least one group of size >= 2; rank: at least three rows. Distinct = distinct program text.",
+        "assumptions": COMMON_ASSUMPTIONS + [
+            "rank keys are numbers (where < is not in dispute)",
+            "both join operands are relations (all members tuples with one heading); heterogeneous tuple sets are C01's domain",
+        ],
+    },
+    "C12": {
+        "level": "exploration",
+        "technique": "property-based testing (rapid): generated data values -> printed text -> re-evaluated -> compared with the model value (round trip), plus generated string literals decoded against an independent escape decoder",
+        "level_text": "Generated-input search: values over strings of arbitrary Unicode scalars (biased to quotes, backslash, backquotes, control "
+                      "characters, DEL, astral and BMP-edge characters, digits after escapes), attribute names with arbitrary characters, offset and sparse "
+                      "strings/arrays, offset byte arrays, multi-valued dictionaries, relations with sugar-looking and non-identifier headings, @neg wrappers, "
+                      "numbers whose shortest decimal form is short. The value is built with the exported constructors, printed with %v and //str.repr (must "
+                      "agree), the text is evaluated and must denote the model value, be Equal both ways and print identically. Separately, string literals made "
+                      "of raw characters and every documented escape form are decoded by the evaluator and by a 30-line reference decoder.",
+        "level_note": "Trusted: obs.ToRel (NewTuple/NewSet/NewNumber only), obs.Denote, the reference escape decoder in genStrLit, rapid. The bundle config file is covered by C15.",
+        "tests": [{"name": "TestC12", "quick": 4000, "thorough": 60000}],
+        "rule": "non-trivial: nesting depth >= 2, or a string with a character needing an escape, or a non-identifier attribute name, or an offset/hole, or a string literal with an escape. Distinct = distinct value key + literal.",
+        "assumptions": COMMON_ASSUMPTIONS + [
+            "tuples never hold both x and &x (the evaluator strips the counterpart, so such tuples cannot be produced)",
+            "numbers are drawn from a list whose shortest decimal form is under 15 characters",
+        ],
+    },
 }
